@@ -297,7 +297,7 @@ fn slice_menu(text: &str) -> Vec<Op> {
 
 pub fn run(run: &mut Run) -> Finish {
     let tier = run.ctx.tier;
-    let maxlen: usize = tier.pick(6, 8);
+    let maxlen: usize = tier.pick(7, 9);
 
     // slice 1: BFS to a fixpoint for every text
     let mut sizes = vec![];
@@ -308,7 +308,7 @@ pub fn run(run: &mut Run) -> Finish {
     }
     let fix_fail = std::sync::atomic::AtomicU64::new(0);
     let max_depth = std::sync::atomic::AtomicU64::new(0);
-    run.par_slice("BFS over real line-index states to a fixpoint, every text up to length 6/8 over {a,\\n,\\r,é,→,𝒜}", 1, total, |idx, l| {
+    run.par_slice("BFS over real line-index states to a fixpoint, every text up to length 7/9 over {a,\\n,\\r,é,→,𝒜}", 1, total, |idx, l| {
         let k = idx & ((1 << 40) - 1);
         let len = sizes.iter().rposition(|&s| s <= k).unwrap();
         let text = text_of(k - sizes[len], len);
